@@ -271,6 +271,10 @@ def st_case(draw):
                                   "seconds"]))
         if "weeks" in b:
             b["weeks"] += draw(st.sampled_from([1, -1]))
+        elif dec and draw(st.booleans()):
+            # less than a second apart (dyadic fraction: exact in floats)
+            b["seconds"] = b.get("seconds", 0) + draw(
+                st.sampled_from([0.5, -0.5, 0.25, -0.75]))
         else:
             b[k] = b.get(k, 0) + draw(st.sampled_from([1, -1, 12, -12]))
     else:
